@@ -144,6 +144,7 @@ type Fault struct {
 	Index   int    `json:"index"` // position in the window (len(window) = "after the last call")
 	Errno   string `json:"errno,omitempty"`
 	Limit   int64  `json:"limit,omitempty"`
+	Seq     int    `json:"-"` // position in the plan
 }
 
 func (f Fault) String() string {
